@@ -47,14 +47,14 @@ func runReencode(sp reSpec) (steps []reStep, ok bool) {
 		vh.Die("reencode value: %v", err)
 	}
 	var g value.Value
-	if o := vh.Guard(func() { g = build(v, sp.HSeed) }); !o.OK() {
-		return nil, false
+	if o := vh.GuardTimeout(implDeadline, func() { g = build(v, sp.HSeed) }); !o.OK() {
+		return []reStep{{what: "build", line: v.Line(), out: o}}, false
 	}
 	r := vh.NewRng(sp.MSeed)
 	gen := vg.New(r.Fork(), vg.Opt{Depth: 2, Width: 3, Nil: false})
 	for k := 0; k <= sp.Steps; k++ {
 		st := reStep{what: "build"}
-		st.out = vh.Guard(func() {
+		st.out = vh.GuardTimeout(implDeadline, func() {
 			if k > 0 {
 				var path []vg.PathNode
 				path, st.what = vg.MutateInPlace(r, g, v, gen)
@@ -100,8 +100,18 @@ func reencodeStage(env *vh.Env, rep *vh.Report, rng *vh.Rng, specs []reSpec) int
 	}
 	var lines []string
 	var all [][]reStep
+	hangs := 0
 	for _, sp := range specs {
+		if hangs >= 3 { // every hang leaves a spinning goroutine behind: stop the stage, the reports are made
+			all = append(all, nil)
+			continue
+		}
 		steps, _ := runReencode(sp)
+		for _, st := range steps {
+			if st.out.Timeout {
+				hangs++
+			}
+		}
 		all = append(all, steps)
 		for _, st := range steps {
 			if st.out.OK() {
@@ -124,6 +134,10 @@ func reencodeStage(env *vh.Env, rep *vh.Report, rng *vh.Rng, specs []reSpec) int
 				if v, err := vg.ParseLine(sp.Value); err == nil {
 					top = vg.TypeName[v.K]
 				}
+			}
+			if st.out.Timeout {
+				rep.Fail("property", "WriteValue:"+top+":hangs-after-in-place-mutation", "building / encoding / decoding did not finish within its deadline after "+st.what, replay)
+				break
 			}
 			if !st.out.OK() {
 				rep.Fail("property", "WriteValue:"+top+":panic-after-in-place-mutation", "encode / decode panicked after "+st.what+": "+vh.Clip(st.out.Panic, 200), replay)
@@ -172,7 +186,10 @@ func reencodeStage(env *vh.Env, rep *vh.Report, rng *vh.Rng, specs []reSpec) int
 			}
 			nAlias++
 			var backA, backA2, backB string
-			o := vh.Guard(func() {
+			if hangs >= 3 {
+				break
+			}
+			o := vh.GuardTimeout(implDeadline, func() {
 				ga, gb := build(va, specs[i].HSeed), build(vb, specs[i+1].HSeed)
 				rawA := rawEncode(ga)
 				rawB := rawEncode(gb)
@@ -181,6 +198,9 @@ func reencodeStage(env *vh.Env, rep *vh.Report, rng *vh.Rng, specs []reSpec) int
 				backB = vg.FromGo(value.ReadValue(gio.NewDataInputX(rawB))).Line()
 				backA2 = vg.FromGo(value.ReadValue(gio.NewDataInputX(rawA2))).Line()
 			})
+			if o.Timeout {
+				hangs++
+			}
 			rep.Case("alias "+va.Line()+" | "+vb.Line(), true)
 			rep.Count("reencode:encodeA-encodeB-decodeA")
 			if !o.OK() || backA != va.Line() || backB != vb.Line() || backA2 != va.Line() {
